@@ -186,13 +186,17 @@ func runEnc(prop string, seed uint64, tier, dir string) error {
 		if prop == "C01" {
 			which = 0
 		}
-		if prop == "C13" && rng.Intn(5) == 0 {
-			which = 99
+		if (prop == "C13" && rng.Intn(5) == 0) || (prop == "C06" && rng.Intn(6) == 0) {
+			which = 99 // a packet of package protocol
 		}
 		switch {
 		case which == 99:
 			e, k := g.ethernet()
-			first, _ := e.MarshalBinary()
+			var first []byte
+			func() { // a panic of the first encoding is recorded as an empty first encoding (the replay disagrees)
+				defer func() { recover() }()
+				first, _ = e.MarshalBinary()
+			}()
 			pktFirst = first
 			v, term, kind = e, "(EPkt "+bterm(first)+")", "packet:"+k
 		case which < 5:
